@@ -26,6 +26,22 @@ META = {
  ("C13","B"): dict(needs="a chain of caches in which the name of one is a dependency label of another", demo_dest="tests/", detected_by=["C13 (oracle frame; chain scenarios)", "C12"]),
  ("C15","A"): dict(needs="sync global LFU/ARC/TLRU with ttl; a lookup that finds an expired entry", demo_dest="tests/", detected_by=["C15 (c15 predicate)"]),
  ("C15","B"): dict(needs="async function with a name attribute; statistics looked up by that name", demo_dest="cachelito-async/tests/", detected_by=["C15 (oracle stats)"]),
+ ("C02","A"): dict(needs="sync function with two adjacent String/&str parameters whose contents contain the sequence \"|\" (quote, bar, quote)", demo_dest="tests/", detected_by=["C02 (real key != model key: correspondence; collision only for the exact adversarial pair)"]),
+ ("C02","B"): dict(needs="async function with a destructuring pattern as parameter; two calls differing only there", demo_dest="cachelito-async/tests/", detected_by=["C02 (macro part, oracle pure; corpus functions with pattern parameters)"]),
+ ("C03","A"): dict(needs="async cache; two lookups of a stored key overlapping in real time on the same DashMap shard", demo_dest="cachelito-async/tests/", detected_by=["C03 / C14 (sched part, overlapping lookups with held clones: MISS)"]),
+ ("C03","B"): dict(needs="sync function whose body leaves through an explicit return for some arguments", demo_dest="tests/", detected_by=["C03 (oracle once; corpus functions with early return)"]),
+ ("C14","A"): dict(needs="scope = thread together with tags/events/dependencies; two threads", demo_dest="tests/", detected_by=["C14 (oracle iso)"]),
+ ("C14","B"): dict(needs="same change as C03-A (spurious miss under shard contention)", demo_dest="cachelito-async/tests/", detected_by=["C14 / C03 (sched part: MISS)"]),
+ ("C16","A"): dict(needs="thread scope with max_memory; a value that alone exceeds max_memory", demo_dest="tests/", detected_by=["C16 (panic in core and macro parts)"]),
+ ("C16","B"): dict(needs="sync TLRU with ttl; an entry older than ttl still stored when an overflow happens", demo_dest="tests/", detected_by=["C16 (panic)"]),
+ ("C17","A"): dict(needs="sync global cache with ttl; lookup of an expired key while another thread is inside an evicting store", demo_dest="tests/", detected_by=["C17 (lock trace not accepted + real deadlock schedule found)"]),
+ ("C17","B"): dict(needs="invalidate_all_with over >= 2 caches racing the first call (registration) of another cached function", demo_dest="tests/", detected_by=["C17 (re-acquisition seen in the trace + real deadlock schedule with a first call)"]),
+ ("C18","A"): dict(needs="async cache with limit; invalidate_with concurrent with a call for a key already removed from the store but not yet from the queue", demo_dest="cachelito-async/tests/", detected_by=["C18 (sched part: UNTRACKED / LIMIT)"]),
+ ("C18","B"): dict(needs="sync global cache with tags and limit; a call between the two steps of the group invalidation", demo_dest="tests/", detected_by=["C18 (sched part: UNTRACKED)", "C17 (trace not accepted)"]),
+ ("C19","A"): dict(needs="async Result function with cache_if accepting an Err", demo_dest="cachelito-async/tests/", detected_by=["C19 / C10 (oracle cif)"]),
+ ("C19","B"): dict(needs="sync policy = \"tlru\" with hits before an overflow", demo_dest="tests/", detected_by=["C19 (attrs correspondence: policy field; macro correspondence)"]),
+ ("C20","A"): dict(needs="async function with invalidate_on; call suspended or dropped after a stale verdict", demo_dest="cachelito-async/tests/", detected_by=["C20 (oracle c20: lookup removed an entry)"]),
+ ("C20","B"): dict(needs="async cache with ttl; call suspended while real time passes, then resumed", demo_dest="cachelito-async/tests/", detected_by=["C20 (oracle c20: entry born before the resume; needs the real-sleep events)"]),
 }
 def main():
     for (pid, v), m in META.items():
